@@ -22,6 +22,8 @@ class C31(timed.TimedHarness):
         return H.new_ao("ao", H.make_state(), klass=SmallAO)
 
     def check(self, p, ex):
+        if ex.verdict == "time-horizon":
+            return []       # the harness's own scripted sleep slipped past the time horizon under clock deviations: nothing observed
         if ex.verdict != "done":
             return [("C31/%s" % ex.verdict, "execution ended with %s: %r" % (ex.verdict, ex.obs))]
         o = ex.obs
